@@ -6,6 +6,7 @@ import (
 	"fmt"
 	"math/rand"
 	"strings"
+	"sync"
 
 	"verifharness/hxlib"
 )
@@ -14,7 +15,7 @@ const rule = "A case is one history on a fresh database (hashmap ±shadow-delete
 	"query objects (key prefix × condition tree over N/S, shared between subscriptions and hooks), subscribe/cancel through interfaces with all " +
 	"Local/Internal/AlwaysMakeSecret/AlwaysMakeCrownjewel combinations, hook register/cancel (phases × pass/veto/replace), Put/PutNew/Delete/MakeSecret/" +
 	"MakeCrownJewel/SetAbsoluteExpiry/InsertValue/Get/PushUpdate on keys inside and outside the prefixes with all flag combinations, feeds drained after every " +
-	"operation (or not at all until > 1000 writes: overflow kind), raw storage reads around vetoed writes, delayed-write interfaces, malformed lines; " +
+	"operation (or not at all until > 1000 writes: overflow kind; fullfeed kind: one subscription is never read until its feed is full and beyond while 1–3 others on the same writes, subscribed before and after it, are read all the time or now and then — drain1), raw storage reads around vetoed writes, delayed-write interfaces, malformed lines; " +
 	"config-push / config-db kinds: the real config package injected as database — option updates pushed, and its StorageInterface driven through the database interface " +
 	"(Put with / without / null Value, Delete, unregistered key, Get) and the config API (SetConfigOption, ReplaceConfig) with exact/prefix/other subscriptions, before and after cancel; " +
 	"concurrent kind: recorded traces of writers vs. Subscribe vs. Cancel (forced at the verif event points) replayed through the interleaving model. " +
@@ -277,6 +278,136 @@ func genOverflow(r *hxlib.Run) hxlib.Case {
 	return hxlib.Case{Lines: l, Kind: "seq:overflow", NonTrivial: true}
 }
 
+// implFeedCap: the capacity of a feed as the implementation makes it (probed once on a scratch database): the
+// full-feed histories must reach the point where the code's buffer is full, whatever its size is; the monitor keeps
+// the statement's 1000.
+var implFeedCapOnce struct {
+	sync.Once
+	n int
+}
+
+func implFeedCap() int {
+	implFeedCapOnce.Do(func() {
+		implFeedCapOnce.n = feedCapStatement
+		w := newWorld()
+		if w.open("hashmap", false) != "ok" {
+			return
+		}
+		defer w.Close()
+		w.Do("q 0 - T")
+		if w.Do("sub 0 LI 0") == "ok" {
+			if s := w.findSub("0"); s != nil {
+				implFeedCapOnce.n = cap(s.sub.Feed)
+				_ = s.sub.Cancel()
+			}
+		}
+	})
+	return implFeedCapOnce.n
+}
+
+// genFullFeed: the "as long as the feed buffer is not full" proviso is per subscription. One subscription (the slow
+// one) is never read until its feed is full and beyond; 1–3 other subscriptions whose queries match (all or part of)
+// the same writes are registered before and after it and are read all the time (`drain1`) or now and then, so that
+// feeds of different fill levels — full, nearly full, empty — are in the controller's list in every order when the
+// writes past the slow one's capacity arrive. Ends with everything drained and a few more writes.
+func genFullFeed(r *hxlib.Run) hxlib.Case {
+	rng := r.Rng
+	var l []string
+	kind := pick(rng, []string{"hashmap 0", "hashmap 0", "hashmap 1", "inj 0"})
+	l = append(l, "db "+kind)
+	slowPrefix := pick(rng, []string{"a", "a/", "-", "a/x"})
+	l = append(l, fmt.Sprintf("q 0 %s T", slowPrefix))
+	nq := 1
+	type other struct {
+		sid     int
+		every   int // drained after every `every` writes; 0 = only at the end
+		drained int
+	}
+	var others []*other
+	nOthers := 1 + rng.Intn(3)
+	slowPos := rng.Intn(nOthers + 1) // how many others are subscribed before the slow one
+	if rng.Intn(100) < 60 {
+		slowPos = 0 // the case that matters most: everybody else comes after the full feed
+		if rng.Intn(100) < 30 {
+			slowPos = 1
+		}
+	}
+	slow := -1
+	nsub := 0
+	addOther := func() {
+		qid := 0 // the same query object as the slow subscription
+		switch x := rng.Intn(100); {
+		case x < 35:
+		case x < 60:
+			l = append(l, fmt.Sprintf("q %d %s T", nq, pick(rng, []string{"-", "a", "a/", slowPrefix})))
+			qid = nq
+			nq++
+		default:
+			l = append(l, fmt.Sprintf("q %d %s %s", nq, pick(rng, []string{"-", "a", slowPrefix}), genCond(rng, 1, false)))
+			qid = nq
+			nq++
+		}
+		l = append(l, fmt.Sprintf("sub %d %s %d", nsub, pick(rng, []string{"LI", "LI", "LI", "L", "I"}), qid))
+		o := &other{sid: nsub, every: pick2(rng, []int{1, 1, 1, 2, 7, 50, 0})}
+		others = append(others, o)
+		nsub++
+	}
+	for i := 0; i <= nOthers; i++ {
+		if i == slowPos {
+			l = append(l, fmt.Sprintf("sub %d LI 0", nsub))
+			slow = nsub
+			nsub++
+		}
+		if i < nOthers {
+			addOther()
+		}
+	}
+	keys := []string{"a/x", "a/x", "a/x/1", "a/y", "a/b/z", "ab", "b/x"}
+	inSlow := func(k string) bool { return strings.HasPrefix(k, unq(slowPrefix)) }
+	capN := implFeedCap()
+	if capN < feedCapStatement {
+		capN = feedCapStatement
+	}
+	extra := 1 + rng.Intn(8)
+	filled, nw := 0, 0
+	for filled < capN+extra && nw < 4*capN+100 {
+		k := pick(rng, keys)
+		switch x := rng.Intn(100); {
+		case x < 8:
+			l = append(l, fmt.Sprintf("push %s %d %s %s", k, nw%10, pick(rng, genStrs), pick(rng, []string{"-", "-", "s"})))
+		case x < 12:
+			l = append(l, fmt.Sprintf("put LI %s %d %s d", k, nw%10, pick(rng, genStrs))) // deletes are writes too
+		default:
+			l = append(l, fmt.Sprintf("put LI %s %d %s %s", k, nw%10, pick(rng, genStrs), pick(rng, []string{"-", "-", "-", "s", "c"})))
+		}
+		nw++
+		if inSlow(k) {
+			filled++
+		}
+		for _, o := range others {
+			if o.every > 0 && nw%o.every == 0 {
+				l = append(l, fmt.Sprintf("drain1 %d", o.sid))
+				o.drained++
+			}
+		}
+		if filled == capN && rng.Intn(100) < 30 {
+			l = append(l, "sizes")
+		}
+	}
+	r.Count(fmt.Sprintf("fullfeed:slow-at-position:%d-of-%d", slowPos, nOthers+1))
+	// the slow subscriber finally reads (or is cancelled first), everybody is read, a few more writes arrive
+	switch rng.Intn(4) {
+	case 0:
+		l = append(l, fmt.Sprintf("cancel %d", slow))
+	case 1:
+		l = append(l, fmt.Sprintf("drain1 %d", slow), "put LI a/x 3 foo -", "push a/x/1 4 bar -")
+	}
+	l = append(l, "drain", "put LI a/x 5 foo -", "put LI a/y 6 baz -", "drain", "sizes")
+	return hxlib.Case{Lines: l, Kind: "seq:fullfeed", NonTrivial: true}
+}
+
+func pick2(rng *rand.Rand, l []int) int { return l[rng.Intn(len(l))] }
+
 // genMalformed: lines outside the grammar (both sides must answer bad-op and stay intact).
 func genMalformed(r *hxlib.Run) hxlib.Case {
 	rng := r.Rng
@@ -345,6 +476,9 @@ func gen(r *hxlib.Run, emit func(hxlib.Case)) {
 	}
 	for i, n := 0, r.Budget(4, 40); i < n; i++ {
 		emit(genOverflow(r))
+	}
+	for i, n := 0, r.Budget(8, 60); i < n; i++ {
+		emit(genFullFeed(r))
 	}
 	for i, n := 0, r.Budget(40, 400); i < n; i++ {
 		emit(hxlib.Case{Lines: []string{fmt.Sprintf("cfgpush %d", 1+r.Rng.Intn(5))}, Kind: "config-push", NonTrivial: i < 5, NoModel: true})
